@@ -126,10 +126,21 @@ def render(case, paths):
 
 
 def argv_of(case, paths):
+    """the command line; when case['wcollenv'] names a file, that (only) target word is not written as -w ^file: the file
+    reaches pdsh through the WCOLL variable instead (see env_of)"""
     out = []
-    for o, a in render(case, paths):
-        out += ["-" + o, a]
+    key = case.get("wcollenv")
+    for o, ws in case["opts"]:
+        ws2 = [wd for wd in ws if not (key is not None and wd[0] == "file" and not wd[1] and wd[2] == key)]
+        if not ws2:
+            continue
+        out += ["-" + o, b",".join(word_text(o, wd, paths) for wd in ws2)]
     return out
+
+
+def env_of(case, paths):
+    key = case.get("wcollenv")
+    return {} if key is None else {"WCOLL": paths[key]}
 
 
 def model_line(case, paths, variant, table):
@@ -237,6 +248,8 @@ def g_case(r, two=True, nfiles=2):
         pat = r.choice(BAD_REGEX) if r.chance(1, 40) else r.choice(REGEX_TEMPLATES)
         others.append(("regex", r.chance(1, 2), pat, r.chance(4, 5)))
     case["opts"] = arrange(r, tw, others)
+    if len(tw) == 1 and tw[0][0] == "file" and case["files"].get(tw[0][2]) and r.chance(2, 3):
+        case["wcollenv"] = tw[0][2]          # the targets come from the WCOLL variable; exclusions and filters still apply
     return case
 
 
@@ -300,6 +313,13 @@ def big_exclusion_case(r, n, shape, pad=0):
     return case
 
 
+def long_word_case(r, n, how):
+    """one bracketed exclusion word naming n odd numbers (its text is about 4n bytes): -x WORD or -w -WORD"""
+    tw = [("hosts", [("br", b"n", [(b"1", b"%d" % (2 * n + 2))], b"")]), ("hosts", [("plain", b"zz")])]
+    word = ("excl", [("br", b"n", [(b"%d" % (2 * k + 1), None) for k in range(n)], b"")])
+    return {"files": {}, "opts": [("w", tw), (how, [word])]}
+
+
 def ranged_len_unrelated(n, pad):
     return 0 if n == 0 else 8 * n - 1 + pad
 
@@ -326,7 +346,10 @@ def _dec(x):
 
 
 def to_json(case):
-    return {"files": _enc(case["files"]), "opts": _enc(case["opts"])}
+    j = {"files": _enc(case["files"]), "opts": _enc(case["opts"])}
+    if case.get("wcollenv") is not None:
+        j["wcollenv"] = case["wcollenv"]
+    return j
 
 
 def from_json(j):
@@ -345,7 +368,10 @@ def from_json(j):
             else:
                 nws.append(tuple(wd))
         opts.append((o, nws))
-    return {"files": files, "opts": opts}
+    out = {"files": files, "opts": opts}
+    if j.get("wcollenv") is not None:
+        out["wcollenv"] = j["wcollenv"]
+    return out
 
 
 def short(case, paths=None):
